@@ -458,3 +458,294 @@ Proof.
   - replace (1 + Z.of_nat n - 1) with (Z.of_nat n) by lia. exact L3.
   - exact (get_charno_tok_loc s p n b cc Hp E).
 Qed.
+
+(* ------------------------------------------------------------------------------------------ *)
+(* runs of spaces, rstrip *)
+
+Lemma lspaces_split :
+  forall l, exists r, l = repeat SP (Z.to_nat (lspaces l)) ++ r
+                 /\ 0 <= lspaces l <= len l
+                 /\ match r with c :: _ => neqb c SP = false | [] => True end.
+Proof.
+  induction l as [|c tl IH].
+  - exists []. cbn [lspaces]. rewrite len_nil. split; [reflexivity|]. split; [lia|exact I].
+  - cbn [lspaces]. rewrite len_cons. pose proof (len_nonneg _ tl) as LN. destruct (neqb c SP) eqn:E.
+    + destruct IH as [r [E1 [E2 E3]]]. exists r.
+      replace (Z.to_nat (1 + lspaces tl)) with (S (Z.to_nat (lspaces tl))) by lia.
+      apply N.eqb_eq in E. subst c. cbn [repeat]. rewrite <- app_comm_cons. rewrite <- E1.
+      split; [reflexivity|]. split; [lia|exact E3].
+    + exists (c :: tl). change (Z.to_nat 0) with O. cbn [repeat app].
+      split; [reflexivity|]. split; [lia|exact E].
+Qed.
+
+Lemma rev_repeat : forall A (x : A) n, rev (repeat x n) = repeat x n.
+Proof.
+  intros A x. induction n as [|n IH]; [reflexivity|]. simpl. rewrite IH.
+  clear IH. induction n; [reflexivity|]. simpl. rewrite IHn. reflexivity.
+Qed.
+
+(* t = pre ++ (rspaces t) spaces, and pre does not end with a space *)
+Lemma rspaces_split :
+  forall t, exists pre, t = pre ++ repeat SP (Z.to_nat (rspaces t))
+                   /\ 0 <= rspaces t <= len t
+                   /\ match rev pre with c :: _ => neqb c SP = false | [] => True end.
+Proof.
+  intro t. unfold rspaces. destruct (lspaces_split (rev t)) as [r [E1 [E2 E3]]].
+  exists (rev r). rewrite rev_involutive. split; [|split].
+  - apply (f_equal (@rev N)) in E1. rewrite rev_involutive, rev_app_distr, rev_repeat in E1. exact E1.
+  - unfold len in *. rewrite rev_length in E2. exact E2.
+  - exact E3.
+Qed.
+
+Lemma dropwhile_app_stop :
+  forall f bl x rest, forallb f bl = true -> f x = false -> dropwhile f (bl ++ x :: rest) = x :: rest.
+Proof.
+  intros f. induction bl as [|b bl IH]; intros x rest Hb Hx; simpl.
+  - rewrite Hx. reflexivity.
+  - simpl in Hb. apply andb_true_iff in Hb. destruct Hb as [B1 B2]. rewrite B1. apply IH; assumption.
+Qed.
+
+Lemma rstrip_stop :
+  forall f pre x bl, forallb f bl = true -> f x = false -> rstrip f (pre ++ x :: bl) = pre ++ [x].
+Proof.
+  intros f pre x bl Hb Hx. unfold rstrip. rewrite rev_app_distr. simpl rev. rewrite <- app_assoc. simpl app.
+  rewrite dropwhile_app_stop; [| rewrite forallb_forall in *; intros y Hy; apply Hb; apply in_rev; exact Hy | exact Hx].
+  simpl rev. rewrite rev_involutive. reflexivity.
+Qed.
+
+Lemma rev_head_last : forall (t : text) c r d, rev t = c :: r -> last t d = c.
+Proof.
+  intros t c r d H. rewrite <- (rev_involutive t). rewrite H. simpl. apply last_last.
+Qed.
+
+(* ------------------------------------------------------------------------------------------ *)
+(* T13.3 spans of nodes *)
+
+(* the text between two character offsets *)
+Definition node_text (s : text) (p1 p2 : nat) : text := py_slice s (Z.of_nat p1) (Z.of_nat p2).
+
+(* the guard of the partial theorem: the text does not start or end with a space *)
+Definition no_edge_blank (t : text) : bool :=
+  match t with
+  | [] => true
+  | c :: _ => negb (neqb c SP) && negb (neqb (last t 0%N) SP)
+  end.
+
+Definition attrs_of (a b : Z * Z) : attrs := (Some (fst a), Some (snd a), Some (fst b), Some (snd b)).
+
+Lemma trim_noop :
+  forall code start0 end0,
+    no_edge_blank code = true ->
+    (match code with c :: _ => if neqb c SP then start0 + lspaces code else start0 | [] => start0 end) = start0
+    /\ (match rev code with c :: _ => if neqb c SP then end0 - rspaces code else end0 | [] => end0 end) = end0.
+Proof.
+  intros code start0 end0 H. destruct code as [|c tl]; [split; reflexivity|].
+  unfold no_edge_blank in H. apply andb_true_iff in H. destruct H as [H1 H2].
+  apply negb_true_iff in H1, H2. rewrite H1. split; [reflexivity|].
+  destruct (rev (c :: tl)) as [|e r] eqn:R; [reflexivity|].
+  rewrite (rev_head_last _ _ _ 0%N R) in H2. rewrite H2. reflexivity.
+Qed.
+
+(* plain node: positions of the true offsets p1 <= p2, text without edge blanks *)
+Theorem span_of_node_partial :
+  forall s p1 p2 is_def,
+    (p1 <= p2)%nat -> (p2 <= length s)%nat ->
+    no_edge_blank (node_text s p1 p2) = true ->
+    get_charnos s [] (attrs_of (tok_pos s p1) (tok_pos s p2)) is_def false
+    = Some (Z.of_nat p1, Z.of_nat p2).
+Proof.
+  intros s p1 p2 is_def H12 H2 NB. unfold get_charnos, attrs_of, get_position.
+  rewrite get_charno_tok_pos by lia. rewrite get_charno_tok_pos by lia.
+  fold (node_text s p1 p2).
+  destruct (trim_noop (node_text s p1 p2) (Z.of_nat p1) (Z.of_nat p2) NB) as [T1 T2].
+  rewrite T1, T2. reflexivity.
+Qed.
+
+(* what the theorem gives: the span lies inside the source and Match.string is the node text *)
+Corollary span_inside_and_text :
+  forall s p1 p2 is_def r,
+    (p1 <= p2)%nat -> (p2 <= length s)%nat ->
+    no_edge_blank (node_text s p1 p2) = true ->
+    get_charnos s [] (attrs_of (tok_pos s p1) (tok_pos s p2)) is_def false = Some r ->
+    0 <= fst r <= snd r /\ snd r <= len s /\ match_string s r = node_text s p1 p2.
+Proof.
+  intros s p1 p2 is_def r H12 H2 NB H.
+  rewrite (span_of_node_partial s p1 p2 is_def H12 H2 NB) in H. inversion H; subst; clear H.
+  unfold match_string, node_text, len. simpl. repeat split; lia.
+Qed.
+
+(* without the guard the claim is false: the literal part " " of f" {x}" *)
+Theorem span_of_node_refuted :
+  exists s p1 p2 r,
+    (p1 <= p2)%nat /\ (p2 <= length s)%nat
+    /\ get_charnos s [] (attrs_of (tok_pos s p1) (tok_pos s p2)) false false = Some r
+    /\ snd r < fst r.
+Proof.
+  exists [102; 34; 32; 123; 120; 125; 34]%N, 2%nat, 3%nat, (3, 2).
+  split; [lia|]. split; [simpl; lia|]. split; [vm_compute; reflexivity | simpl; lia].
+Qed.
+
+Example span_partial_nontrivial :   (* "s = 'é'; f(1)" : the call f(1), after a two-byte character *)
+  let s := [115; 32; 61; 32; 39; 233; 39; 59; 32; 102; 40; 49; 41]%N in
+  no_edge_blank (node_text s 9 13) = true
+  /\ tok_pos s 9 = (1, 10)
+  /\ get_charnos s [] (attrs_of (tok_pos s 9) (tok_pos s 13)) false false = Some (9, 13).
+Proof. vm_compute. repeat split; reflexivity. Qed.
+
+(* keep_first_indent: the start moves left over the run of spaces that precedes it *)
+Theorem span_keep_first_indent :
+  forall s p1 p2 is_def,
+    (p1 <= p2)%nat -> (p2 <= length s)%nat ->
+    no_edge_blank (node_text s p1 p2) = true ->
+    exists k pre,
+      get_charnos s [] (attrs_of (tok_pos s p1) (tok_pos s p2)) is_def true
+      = Some (Z.of_nat p1 - k, Z.of_nat p2)
+      /\ 0 <= k <= Z.of_nat p1
+      /\ firstn p1 s = pre ++ repeat SP (Z.to_nat k)
+      /\ match rev pre with c :: _ => neqb c SP = false | [] => True end.
+Proof.
+  intros s p1 p2 is_def H12 H2 NB. unfold get_charnos, attrs_of, get_position.
+  rewrite get_charno_tok_pos by lia. rewrite get_charno_tok_pos by lia.
+  fold (node_text s p1 p2).
+  destruct (trim_noop (node_text s p1 p2) (Z.of_nat p1) (Z.of_nat p2) NB) as [T1 T2].
+  rewrite T1, T2.
+  rewrite py_slice_prefix by (unfold len; lia). rewrite Nat2Z.id.
+  destruct (rspaces_split (firstn p1 s)) as [pre [E1 [E2 E3]]].
+  exists (rspaces (firstn p1 s)), pre. split; [reflexivity|]. split; [|split; assumption].
+  unfold len in E2. rewrite firstn_length in E2. lia.
+Qed.
+
+(* decorated definition: the first decorator expression starts at pd, its "@" is at offset
+   length pre, and only blanks / continuations / "(" lie between them *)
+Theorem span_of_decorated_partial :
+  forall s d ds pre bl pd p1 p2,
+    (pd <= p1)%nat -> (p1 <= p2)%nat -> (p2 <= length s)%nat ->
+    (let '(l, c, _, _) := min_pos d ds in (l, c)) = tok_pos s pd ->
+    firstn pd s = pre ++ AT :: bl ->
+    forallb is_dec_blank bl = true ->
+    no_edge_blank (node_text s pd p2) = true ->
+    get_charnos s (d :: ds) (attrs_of (tok_pos s p1) (tok_pos s p2)) true false
+    = Some (len pre, Z.of_nat p2).
+Proof.
+  intros s d ds pre bl pd p1 p2 Hd H12 H2 Hmin Hpre Hbl NB.
+  unfold get_charnos, attrs_of, get_position.
+  destruct (min_pos d ds) as [[[l c] el] ec]. 
+  assert (L : l = fst (tok_pos s pd)) by (rewrite <- Hmin; reflexivity).
+  assert (C : c = snd (tok_pos s pd)) by (rewrite <- Hmin; reflexivity).
+  subst l c. rewrite get_charno_tok_pos by lia. rewrite get_charno_tok_pos by lia.
+  fold (node_text s pd p2).
+  destruct (trim_noop (node_text s pd p2) (Z.of_nat pd) (Z.of_nat p2) NB) as [T1 T2].
+  rewrite T1, T2.
+  rewrite py_slice_prefix by (unfold len; lia). rewrite Nat2Z.id. rewrite Hpre.
+  rewrite rstrip_stop by (exact Hbl || reflexivity).
+  rewrite len_app. rewrite len_cons, len_nil.
+  replace (len pre + (1 + 0) - 1) with (len pre) by lia.
+  pose proof (len_nonneg _ pre) as P0.
+  destruct (0 <=? len pre) eqn:Z0; [|lia]. simpl andb.
+  assert (IX : py_index s (len pre) = Some AT).
+  { rewrite py_index_nonneg by lia. unfold len. rewrite Nat2Z.id.
+    rewrite <- (firstn_skipn pd s). rewrite Hpre. rewrite <- app_assoc. 
+    rewrite nth_error_app2 by lia. rewrite Nat.sub_diag. reflexivity. }
+  rewrite IX. reflexivity.
+Qed.
+
+(* without the blank guard the "@" is not found: "@(#c<LF>f)<LF>def g():<LF> pass" *)
+Theorem span_of_decorated_refuted :
+  exists s d pre bl pd p1 p2,
+    (pd <= p1)%nat /\ (p1 <= p2)%nat /\ (p2 <= length s)%nat
+    /\ (let '(l, c, _, _) := d in (l, c)) = tok_pos s pd
+    /\ firstn pd s = pre ++ AT :: bl
+    /\ no_edge_blank (node_text s pd p2) = true
+    /\ get_charnos s [d] (attrs_of (tok_pos s p1) (tok_pos s p2)) true false
+       <> Some (len pre, Z.of_nat p2).
+Proof.
+  exists [64; 40; 35; 99; 10; 102; 41; 10; 100; 101; 102; 32; 103; 40; 41; 58; 10; 32; 112; 97; 115; 115]%N,
+         (2, 0, 2, 1), [], [40; 35; 99; 10]%N, 5%nat, 8%nat, 22%nat.
+  split; [lia|]. split; [lia|]. split; [simpl; lia|]. split; [vm_compute; reflexivity|].
+  split; [reflexivity|]. split; [vm_compute; reflexivity|]. vm_compute. discriminate.
+Qed.
+
+Example span_decorated_nontrivial :   (* "@ foo<LF>def f():<LF>  pass" *)
+  let s := [64; 32; 102; 111; 111; 10; 100; 101; 102; 32; 102; 40; 41; 58; 10; 32; 32; 112; 97; 115; 115]%N in
+  tok_pos s 2 = (1, 2) /\ firstn 2 s = [] ++ AT :: [32%N] /\ forallb is_dec_blank [32%N] = true
+  /\ get_charnos s [(1, 2, 1, 5)] (attrs_of (tok_pos s 6) (tok_pos s 21)) true false = Some (0, 21).
+Proof. vm_compute. repeat split; reflexivity. Qed.
+
+(* min over decorator positions: an element of the list, not above any other *)
+Lemma min_pos_in : forall l b, In (min_pos b l) (b :: l).
+Proof.
+  induction l as [|x tl IH]; intros b; simpl; [auto|].
+  destruct (IH (if pos_ltb x b then x else b)) as [H|H]; [|auto].
+  rewrite <- H. destruct (pos_ltb x b); auto.
+Qed.
+
+(* has_ignore_comment only grows with the range *)
+Lemma overlaps_mono :
+  forall a b a' b' l, a' <= a -> b <= b' -> overlaps (a, b) l = true -> overlaps (a', b') l = true.
+Proof.
+  intros a b a' b' [l1 l2] H1 H2. unfold overlaps. simpl. rewrite !andb_true_iff, !Z.ltb_lt. lia.
+Qed.
+
+Theorem has_ignore_mono :
+  forall s a b a' b', a' <= a -> b <= b' ->
+    has_ignore_comment s (a, b) = true -> has_ignore_comment s (a', b') = true.
+Proof.
+  intros s a b a' b' H1 H2. unfold has_ignore_comment. generalize 0.
+  induction (str_lines s) as [|l ls IH]; intros st; simpl; [auto|].
+  rewrite !orb_true_iff, !andb_true_iff. intros [[O P]|R].
+  - left. split; [|exact P]. eapply overlaps_mono; eauto.
+  - right. apply IH. exact R.
+Qed.
+
+(* ------------------------------------------------------------------------------------------ *)
+(* R13.3 -- why the repairs F13-1/F13-2/F13-3 were needed: the arithmetic of the pinned code
+   (str.splitlines line table, byte column added to a character offset, source[start - 1] at 0)
+   does not satisfy the round trip of [get_charno_tok_pos]. *)
+
+Definition charno_v0 (s : text) (lineno col : Z) : option Z :=
+  match py_index (fst (starts_from 0 (str_lines s))) (lineno - 1) with
+  | Some st => Some (st + col)
+  | None => None
+  end.
+
+Theorem v0_byte_column_refuted :      (* s = 'é'; f(1)   -- the call is at offset 9, column 10 *)
+  exists s p, (p <= length s)%nat /\ is_ascii s = false
+    /\ charno_v0 s (fst (tok_pos s p)) (snd (tok_pos s p)) <> Some (Z.of_nat p).
+Proof.
+  exists [115; 32; 61; 32; 39; 233; 39; 59; 32; 102; 40; 49; 41]%N, 9%nat.
+  split; [simpl; lia|]. split; [reflexivity|]. vm_compute. discriminate.
+Qed.
+
+Theorem v0_splitlines_table_refuted : (* s = '<FF>'<LF>f(1)<LF>   -- ascii, the call is at offset 8 *)
+  exists s p, (p <= length s)%nat /\ is_ascii s = true
+    /\ charno_v0 s (fst (tok_pos s p)) (snd (tok_pos s p)) <> Some (Z.of_nat p).
+Proof.
+  exists [115; 32; 61; 32; 39; 12; 39; 10; 102; 40; 49; 41; 10]%N, 8%nat.
+  split; [simpl; lia|]. split; [reflexivity|]. vm_compute. discriminate.
+Qed.
+
+Theorem v0_agrees_when_plain :        (* the old arithmetic was right for ascii text without \f & co *)
+  forall s p n b cc,
+    (p <= length s)%nat -> is_ascii s = true -> tok_lines s = str_lines s -> ends_with_nl s = false ->
+    tok_loc s p = (n, b, cc) ->
+    charno_v0 s (1 + Z.of_nat n) b = Some (Z.of_nat p).
+Proof.
+  intros s p n b cc Hp HA HL HE H.
+  pose proof (get_charno_tok_loc s p n b cc Hp H) as G.
+  unfold get_charno in G. rewrite HA in G. simpl orb in G.
+  unfold charno_v0. rewrite <- HL.
+  unfold line_starts in G. destruct (starts_from 0 (tok_lines s)) as [r e]. rewrite HE in G.
+  simpl fst. exact G.
+Qed.
+
+(* Python's negative index: t[-1] is the last element, which is what source[start - 1] read at start = 0 *)
+Lemma py_index_minus_one : forall (t : text) d, t <> [] -> py_index t (-1) = Some (last t d).
+Proof.
+  intros t d H. unfold py_index.
+  assert (E0 : (-1 <? 0) = true) by reflexivity. rewrite E0.
+  destruct t as [|c tl]; [contradiction|]. rewrite len_cons. pose proof (len_nonneg _ tl).
+  destruct (-1 + (1 + len tl) <? 0) eqn:E; [lia|].
+  replace (Z.to_nat (-1 + (1 + len tl))) with (length tl) by (unfold len; lia).
+  clear. revert c. induction tl as [|x tl IH]; intro c; [reflexivity|].
+  cbn [length nth_error]. rewrite IH. reflexivity.
+Qed.
